@@ -184,10 +184,18 @@ func (r *Runner) specStep(k int, st SpecStep) {
 		r.Do(Stim{Op: "hb", N: n})
 		ok = r.Do(Stim{Op: "deliver", Kind: "ae", From: n, To: p})
 		r.Do(Stim{Op: "dropresp", Kind: "ae", From: n, To: p})
-	case "AddVoter", "AddNonVoter":
-		ok = r.Do(Stim{Op: "add", N: n, ID: p, V: st.A == "AddVoter", TO: 60000})
-	case "RemoveServer":
-		ok = r.Do(Stim{Op: "remove", N: n, ID: p, TO: 60000})
+	case "AddVoter", "AddNonVoter", "RemoveServer":
+		to := 60000
+		if r.sc.MemberTOMS > 0 {
+			// the futures of earlier membership calls have timed out when this one is made
+			to = r.sc.MemberTOMS
+			r.Do(Stim{Op: "adv", D: to + 10})
+		}
+		if st.A == "RemoveServer" {
+			ok = r.Do(Stim{Op: "remove", N: n, ID: p, TO: to})
+		} else {
+			ok = r.Do(Stim{Op: "add", N: n, ID: p, V: st.A == "AddVoter", TO: to})
+		}
 	case "ArmSnapshot":
 		if r.sc.SnapWindow {
 			// the specification's takeSnapshot is two steps: park the real one after publication
